@@ -14,19 +14,28 @@ _WORLDS: Dict[Tuple, world.World] = {}
 def _inert_kwargs(is_async: bool) -> Dict[str, Any]:
     """middlewares / error handlers that must not change any answer: a pass-through middleware and a handler registered
     for a code that never occurs (a non-empty handler table is all some code paths need to behave differently)"""
+    # request and context (and the error) are handed over positionally: those parameter names are the hook's own business;
+    # the inner handler is bound by the keyword `handler` (functools.partial(middleware, handler=...)), which is the
+    # library's interface and is kept
     if is_async:
-        async def mw(request, context, handler):
-            return await handler(request, context)
+        async def mw(req, http_request, /, handler):
+            return await handler(req, http_request)
 
-        async def eh(request, context, error):
-            return error
+        async def mw2(rpc_request, app_ctx, handler):
+            return await handler(rpc_request, app_ctx)
+
+        async def eh(r, c, e, /):
+            return e
     else:
-        def mw(request, context, handler):
-            return handler(request, context)
+        def mw(req, http_request, /, handler):
+            return handler(req, http_request)
 
-        def eh(request, context, error):
-            return error
-    return {'middlewares': [mw], 'error_handlers': {424242: [eh]}}
+        def mw2(rpc_request, app_ctx, handler):
+            return handler(rpc_request, app_ctx)
+
+        def eh(r, c, e, /):
+            return e
+    return {'middlewares': [mw, mw2], 'error_handlers': {424242: [eh]}}
 
 
 def get_world(is_async: bool, max_batch: Optional[int], fresh: bool = False, inert: bool = False, **kw: Any) -> world.World:
